@@ -698,7 +698,9 @@ func checkC11(e *Engine, r *Report) {
 			// (ii) bound by an equality test in Validate against a parameter, failing edge returns an error, dominating success
 			bound := false
 			if !used {
-				gs := eqGuards(val, true, func(v ssa.Value) bool { return fieldVar(v) == f || (func() bool { u, ok := v.(*ssa.UnOp); return ok && fieldVar(u.X) == f })() }, func(v ssa.Value) bool { _, isP := resolveLocal(v).(*ssa.Parameter); return isP })
+				gs := eqGuards(val, true, func(v ssa.Value) bool {
+					return fieldVar(v) == f || (func() bool { u, ok := v.(*ssa.UnOp); return ok && fieldVar(u.X) == f })()
+				}, func(v ssa.Value) bool { _, isP := resolveLocal(v).(*ssa.Parameter); return isP })
 				var conf []Guard
 				for _, g := range gs {
 					if failEdgeReturnsError(val, g, nil) {
@@ -710,6 +712,12 @@ func checkC11(e *Engine, r *Report) {
 					if !mustPass(val, ret, conf) {
 						bound = false
 					}
+				}
+			}
+			if f.Name() == "Amount" && used {
+				// …and the amount that is signed is the amount that is executed: the typed data carries the full uint256
+				if probs, _ := typedDataNarrowing(e); len(probs) > 0 {
+					r.Bad(key+" › rendered unnarrowed", e.Pos(f.Pos()), "the amount (or the chain id) enters the EIP-712 typed data through a 64-bit narrowing ("+strings.Join(probs, "; ")+"): a signature over N also verifies for N + k·2^64, and the precompile executes the larger amount")
 				}
 			}
 			r.Check(used || bound, key, e.Pos(f.Pos()), map[bool]string{true: "flows into the native message", false: "bound by an equality test in Validate"}[used], "the signed field "+f.Name()+" neither reaches the native message nor is tested against the value that does: a message signed for one "+strings.ToLower(f.Name())+" is executed with another (the executor fills in its own value)")
